@@ -39,6 +39,7 @@ PURE_STR_METHODS = {'find', 'rfind', 'index', 'split', 'rsplit', 'partition', 'r
                     'lower', 'upper', 'count', 'isdigit'}
 
 
+INTERPRETED_MODULES = {'statistics', 'distributions', 'utils'}    # analysed by the numeric interpreter (E7), which follows locals itself
 OBSERVERS = set()          # method names all of whose definitions only read state (filled per run by observer_methods)
 BUILTIN_OBSERVERS = {'copy', 'keys', 'values', 'items', 'get', 'count', 'index', 'find'}
 
@@ -595,13 +596,12 @@ def _first_call(e):
         for a in list(e.args) + [k.value for k in e.keywords]:
             if isinstance(a, ast.Starred):
                 return None
-            if _atomic(a):
-                continue
+            if _atomic(a) or _pure_read(a):
+                continue                      # reads (incl. state-reading accessor chains) leave nothing behind: the call itself is the first action
             r = _first_call(a)
             if r is not None:
                 return r
-            if not _pure_read(a):
-                return None
+            return None
         return e
     if isinstance(e, ast.Attribute):
         return _first_call(e.value)
@@ -637,13 +637,54 @@ def _first_evaluated_call(st):
     return _first_call(e)
 
 
+def _num_literal(e):
+    if isinstance(e, ast.Constant) and isinstance(e.value, (int, float)) and not isinstance(e.value, bool):
+        return e.value
+    if isinstance(e, ast.UnaryOp) and isinstance(e.op, (ast.USub, ast.UAdd)):
+        v = _num_literal(e.operand)
+        if v is not None:
+            return -v if isinstance(e.op, ast.USub) else v
+    return None
+
+
+NON_NONE_CLASS_CONSTANTS = set()      # 'Class.NAME' bound once in the class body to a literal that is not None (filled by run)
+
+
 def _const_truth(e):
-    """True / False / None for a test expression that is a literal (possibly negated)"""
+    """True / False / None for a test expression that is a literal (possibly negated) or a comparison of numeric literals"""
     if isinstance(e, ast.Constant) and (e.value is None or isinstance(e.value, (bool, int, float, str))):
         return bool(e.value)
+    if isinstance(e, ast.Compare) and len(e.ops) == 1:
+        a, b = _num_literal(e.left), _num_literal(e.comparators[0])
+        if a is not None and b is not None:
+            import operator as _op
+            f = {ast.Eq: _op.eq, ast.NotEq: _op.ne, ast.Lt: _op.lt, ast.LtE: _op.le, ast.Gt: _op.gt, ast.GtE: _op.ge}.get(type(e.ops[0]))
+            if f is not None:
+                return bool(f(a, b))
+    if isinstance(e, ast.Compare) and len(e.ops) == 1 and isinstance(e.ops[0], (ast.Is, ast.IsNot, ast.Eq, ast.NotEq)):
+        l, r = e.left, e.comparators[0]
+        if isinstance(l, ast.Constant) and l.value is None:
+            l, r = r, l
+        if isinstance(r, ast.Constant) and r.value is None:
+            isnone = None
+            if isinstance(l, ast.Constant):
+                isnone = l.value is None
+            elif isinstance(l, ast.Attribute) and _txt(l) in NON_NONE_CLASS_CONSTANTS:
+                isnone = False
+            if isnone is not None:
+                return isnone if isinstance(e.ops[0], (ast.Is, ast.Eq)) else (not isnone)
     if isinstance(e, ast.UnaryOp) and isinstance(e.op, ast.Not):
         t = _const_truth(e.operand)
         return None if t is None else (not t)
+    if isinstance(e, ast.BoolOp):
+        # short circuit: operands are decided from the left; the first undecided one ends the folding
+        for v in e.values:
+            t = _const_truth(v)
+            if t is None:
+                return None
+            if t is (not isinstance(e.op, ast.And)):
+                return t                      # False ends an `and`, True ends an `or`
+        return isinstance(e.op, ast.And)
     if isinstance(e, (ast.List, ast.Tuple, ast.Dict)) and not (e.elts if not isinstance(e, ast.Dict) else e.keys):
         return False
     return None
@@ -695,7 +736,7 @@ def _simplify_block(stmts):
                 out.append(ast.copy_location(ast.Assign(targets=[ast.Name(id=t.id, ctx=ast.Store())], value=v, lineno=st.lineno), st))
         else:
             out.append(st)
-        if out and isinstance(out[-1], (ast.Return, ast.Raise)):
+        if out and isinstance(out[-1], (ast.Return, ast.Raise, ast.Break, ast.Continue)):
             break
     return out
 
@@ -833,7 +874,7 @@ class _Inliner:
         if form == 'assign' and isinstance(target, ast.Name):
             rets = [r for r in _walk_shallow(h.fn) if isinstance(r, ast.Return)]
             names = {r.value.id for r in rets if isinstance(r.value, ast.Name)}
-            if rets and len(names) == 1 and all(isinstance(r.value, ast.Name) for r in rets):
+            if rets and len(names) == 1 and all(isinstance(r.value, ast.Name) or (isinstance(r.value, ast.Constant) or r.value is None) for r in rets):
                 r0 = next(iter(names))
                 if r0 in h.locals and r0 not in h.params and _terminates(hbody) and (target.id == r0 or target.id not in h.locals):
                     rename[r0] = target.id
@@ -917,6 +958,203 @@ class _Inliner:
             return out
         fn.body = block(fn.body)
         return changed
+
+
+def _negate(c):
+    if isinstance(c, ast.UnaryOp) and isinstance(c.op, ast.Not):
+        return c.operand
+    if isinstance(c, ast.Compare) and len(c.ops) == 1:
+        inv = {ast.Is: ast.IsNot, ast.IsNot: ast.Is, ast.Eq: ast.NotEq, ast.NotEq: ast.Eq, ast.In: ast.NotIn, ast.NotIn: ast.In}.get(type(c.ops[0]))
+        if inv is not None:
+            return ast.copy_location(ast.Compare(left=c.left, ops=[inv()], comparators=c.comparators), c)
+    return ast.copy_location(ast.UnaryOp(op=ast.Not(), operand=c), c)
+
+
+def _lift_walrus(c):
+    """(`v = E` statement or None, c with the walrus replaced by v) when the assignment expression is the first thing c evaluates;
+    (None, None) when c contains one elsewhere"""
+    wal = [x for x in ast.walk(c) if isinstance(x, ast.NamedExpr)]
+    if not wal:
+        return None, c
+    if len(wal) != 1:
+        return None, None
+    w = wal[0]
+    first = None
+    for x in _eval_order(c):
+        first = x
+        break
+    # the first completed evaluation inside c must lie inside the walrus value (nothing is evaluated before it)
+    inside = {id(x) for x in ast.walk(w)}
+    if first is None or id(first) not in inside:
+        return None, None
+
+    class R(ast.NodeTransformer):
+        def visit_NamedExpr(self, node):
+            return ast.copy_location(ast.Name(id=node.target.id, ctx=ast.Load()), node)
+    st = ast.copy_location(ast.Assign(targets=[ast.Name(id=w.target.id, ctx=ast.Store())], value=w.value, lineno=getattr(c, 'lineno', 1)), c)
+    return st, R().visit(c)
+
+
+def unfold_walrus(trees, log):
+    """`while A and (v := E) is not None: B`  ->  `while True: if not A: break; v = E; if v is None: break; B`, and
+    `if (v := E) ...:`  ->  `v = E; if v ...:` -- the same evaluations in the same order, as statements the other passes understand"""
+    count = 0
+
+    def block(stmts):
+        nonlocal count
+        out = []
+        for st in stmts:
+            for field in ('body', 'orelse', 'finalbody'):
+                v = getattr(st, field, None)
+                if isinstance(v, list) and not isinstance(st, (ast.ClassDef,)):
+                    setattr(st, field, block(v))
+            if isinstance(st, ast.Try):
+                for h in st.handlers:
+                    h.body = block(h.body)
+            if isinstance(st, ast.While) and not st.orelse and any(isinstance(x, ast.NamedExpr) for x in ast.walk(st.test)):
+                conj = st.test.values if isinstance(st.test, ast.BoolOp) and isinstance(st.test.op, ast.And) else [st.test]
+                prefix = []
+                ok = True
+                for c in conj:
+                    pre, c2 = _lift_walrus(c)
+                    if c2 is None:
+                        ok = False
+                        break
+                    if pre is not None:
+                        prefix.append(pre)
+                    prefix.append(ast.copy_location(ast.If(test=_negate(c2), body=[ast.copy_location(ast.Break(), c)], orelse=[]), c))
+                if ok:
+                    st.test = ast.copy_location(ast.Constant(value=True), st.test)
+                    st.body = prefix + st.body
+                    count += 1
+            elif isinstance(st, ast.If) and any(isinstance(x, ast.NamedExpr) for x in ast.walk(st.test)):
+                pre, c2 = _lift_walrus(st.test)
+                if c2 is not None and pre is not None:
+                    st.test = c2
+                    out.append(pre)
+                    count += 1
+            out.append(st)
+        return out
+    for tree in trees.values():
+        for n in ast.walk(tree):
+            if isinstance(n, (ast.FunctionDef, ast.AsyncFunctionDef)):
+                if any(isinstance(x, ast.NamedExpr) for x in ast.walk(n)):
+                    n.body = block(n.body)
+    if count:
+        log.append(f'N4 {count} assignment expression(s) in loop / branch conditions unfolded into statements')
+
+
+def inline_generators(trees, base, log):
+    """`for T in self.g(..): BODY` with g a new generator of the shape  <prefix>; <one loop whose body ends with the only `yield v`
+    and otherwise leaves only through bare `return`>  becomes that loop with `T = v; BODY` in place of the yield and `break` in
+    place of the generator's `return` (a `continue` / `break` / `return` in BODY keeps its meaning because the yield is last)."""
+    defs = {}
+    for mname, tree in trees.items():
+        for n in tree.body:
+            if isinstance(n, ast.ClassDef):
+                for m in n.body:
+                    if isinstance(m, ast.FunctionDef):
+                        defs.setdefault(m.name, []).append((mname, n.name, m))
+    gens = {}
+    for name, ds in defs.items():
+        if len(ds) != 1:
+            continue
+        mname, cls, fn = ds[0]
+        b = base.get(mname)
+        if b is None or (cls in b['classes'] and name in b['classes'][cls]['methods']) or fn.decorator_list:
+            continue
+        ys = [x for x in ast.walk(fn) if isinstance(x, (ast.Yield, ast.YieldFrom))]
+        if len(ys) != 1 or not isinstance(ys[0], ast.Yield) or ys[0].value is None:
+            continue
+        body = _body(fn)
+        if not body or not isinstance(body[-1], (ast.While, ast.For)) or body[-1].orelse:
+            continue
+        loop = body[-1]
+        prefix = body[:-1]
+        if any(isinstance(x, (ast.Return, ast.Yield)) for st in prefix for x in ast.walk(st)):
+            continue
+        last = loop.body[-1] if loop.body else None
+        if not (isinstance(last, ast.Expr) and last.value is ys[0]):
+            continue
+        # inside the loop: no nested loops / try / with around returns; returns must be bare
+        bad = False
+        for st in loop.body[:-1]:
+            for x in ast.walk(st):
+                if isinstance(x, (ast.While, ast.For, ast.Try, ast.With, ast.Break, ast.Continue)):
+                    bad = True
+                if isinstance(x, ast.Return) and x.value is not None:
+                    bad = True
+        if bad or fn.args.vararg or fn.args.kwarg or fn.args.kwonlyargs or len(fn.args.args) != 1:
+            continue                                  # (only parameterless generator methods for now)
+        gens[name] = (cls, fn, prefix, loop)
+    if not gens:
+        return
+    count = {}
+
+    class RetToBreak(ast.NodeTransformer):
+        def visit_Return(self, node):
+            return ast.copy_location(ast.Break(), node)
+
+    def block(stmts, cur_cls):
+        out = []
+        for st in stmts:
+            for field in ('body', 'orelse', 'finalbody'):
+                v = getattr(st, field, None)
+                if isinstance(v, list) and v and isinstance(v[0], ast.stmt) and not isinstance(st, (ast.FunctionDef, ast.ClassDef)):
+                    setattr(st, field, block(v, cur_cls))
+            if isinstance(st, ast.Try):
+                for h in st.handlers:
+                    h.body = block(h.body, cur_cls)
+            if isinstance(st, ast.For) and not st.orelse and isinstance(st.iter, ast.Call) and not st.iter.args and not st.iter.keywords \
+                    and isinstance(st.iter.func, ast.Attribute) and _txt(st.iter.func.value) == 'self' and st.iter.func.attr in gens \
+                    and isinstance(st.target, ast.Name):
+                cls, gfn, prefix, loop = gens[st.iter.func.attr]
+                clash = ((set(_locals_of(gfn)) - {'self'}) & (_locals_of_stmts(st.body) | {st.target.id})) if gfn is not None else set()
+                yv = loop.body[-1].value.value if gfn is not None else None
+                same_var = isinstance(yv, ast.Name) and yv.id == st.target.id
+                if same_var:
+                    clash.discard(st.target.id)           # the generator's own name for the yielded object is the loop variable: one variable
+                if gfn is not None:
+                    ren = {c: c + '__' + st.iter.func.attr.strip('_') for c in clash}
+                    new_loop = _Subst({}, ren).visit(copy.deepcopy(loop)) if ren else copy.deepcopy(loop)
+                    new_prefix = [(_Subst({}, ren).visit(x) if ren else x) for x in copy.deepcopy(prefix)]
+                    yield_stmt = new_loop.body.pop()
+                    new_loop.body = [RetToBreak().visit(x) for x in new_loop.body]
+                    if not same_var:
+                        new_loop.body.append(ast.copy_location(ast.Assign(targets=[ast.Name(id=st.target.id, ctx=ast.Store())], value=yield_stmt.value.value,
+                                                                          lineno=yield_stmt.lineno), yield_stmt))
+                    new_loop.body.extend(st.body)
+                    for x in new_prefix + [new_loop]:
+                        ast.fix_missing_locations(x)
+                        out.append(x)
+                    count[st.iter.func.attr] = count.get(st.iter.func.attr, 0) + 1
+                    continue
+            out.append(st)
+        return out
+    for mname, tree in trees.items():
+        for n in tree.body:
+            if isinstance(n, ast.ClassDef):
+                for m in n.body:
+                    if isinstance(m, ast.FunctionDef) and m.name not in gens:
+                        m.body = block(m.body, n.name)
+    for name, k in count.items():
+        cls, gfn, _p, _l = gens[name]
+        refs = sum(1 for tree in trees.values() for x in ast.walk(tree) if isinstance(x, ast.Attribute) and x.attr == name)
+        if refs == 0:
+            for tree in trees.values():
+                for n in tree.body:
+                    if isinstance(n, ast.ClassDef) and gfn in n.body:
+                        n.body.remove(gfn)
+        log.append(f'N2 generator {cls}.{name} inlined into {k} for-loop(s)' + ('; definition dropped' if refs == 0 else ''))
+
+
+def _locals_of_stmts(stmts):
+    out = set()
+    for st in stmts:
+        for n in _walk_shallow(st):
+            if isinstance(n, ast.Name) and isinstance(n.ctx, (ast.Store, ast.Del)):
+                out.add(n.id)
+    return out
 
 
 def inline_helpers(trees, base, log):
@@ -1075,7 +1313,7 @@ def _pure_read(e, allow_attr=True):
     if isinstance(e, ast.Call) and isinstance(e.func, ast.Attribute) and isinstance(e.func.value, ast.Name) and e.func.value.id not in ('self', 'cls') \
             and e.func.attr in PURE_STR_METHODS and not e.keywords:
         return all(_pure_read(a, allow_attr) for a in e.args)        # str / tuple query methods on a plain name
-    if isinstance(e, ast.Call) and isinstance(e.func, ast.Name) and e.func.id in PURE_CALLS and not e.keywords:
+    if isinstance(e, ast.Call) and _txt(e.func) in PURE_CALLS and not e.keywords:
         return all(_pure_read(a, allow_attr) for a in e.args)        # pure builtin
     if allow_attr and isinstance(e, ast.Call) and isinstance(e.func, ast.Attribute) and e.func.attr in OBSERVERS and not e.keywords:
         return _pure_read(e.func.value, allow_attr) and all(_pure_read(a, allow_attr) for a in e.args)    # state-reading method
@@ -1209,7 +1447,7 @@ def propagate_locals(trees, base, log):
     props = _property_backing(trees)
     getters = _simple_getters(trees)
 
-    def do_fn(fn, known_locals, where):
+    def do_fn(fn, known_locals, where, interpreted=False):
         new_locals = _locals_of(fn) - set(known_locals)
         if not new_locals:
             return
@@ -1241,6 +1479,8 @@ def propagate_locals(trees, base, log):
             val = _GetterCalls(getters).visit(copy.deepcopy(val))         # self.getter() reads self.<field>
             if not _pure_read(val):
                 continue
+            if interpreted and any(isinstance(x, (ast.Call, ast.BinOp)) for x in ast.walk(val)):
+                continue                      # the numeric interpreter relates a computed value to its guard only through the local
             # names read by the value must not be re-assigned after the definition
             reads = {x.id for x in ast.walk(val) if isinstance(x, ast.Name)}
             if any(stores.get(r, 0) > (0 if r in params else 1) for r in reads if r != 'self'):
@@ -1354,10 +1594,11 @@ def propagate_locals(trees, base, log):
         for n in tree.body:
             if isinstance(n, (ast.FunctionDef, ast.AsyncFunctionDef)) and n.name in b['funcs']:
                 ifexp_to_if(n)
+                constant_flag_continuation(n, b['funcs'][n.name], log, f'{mname}.{n.name}')
                 chain_to_ifexp(n, b['funcs'][n.name])
                 for _i in range(3):
                     before = len(log)
-                    do_fn(n, b['funcs'][n.name], f'{mname}.{n.name}')
+                    do_fn(n, b['funcs'][n.name], f'{mname}.{n.name}', mname in INTERPRETED_MODULES)
                     propagate_adjacent(n, b['funcs'][n.name], log, f'{mname}.{n.name}')
                     if len(log) == before:
                         break
@@ -1367,42 +1608,159 @@ def propagate_locals(trees, base, log):
                     if isinstance(m, (ast.FunctionDef, ast.AsyncFunctionDef)) and m.name in b['classes'][n.name]['methods']:
                         known = b['classes'][n.name]['methods'][m.name]
                         ifexp_to_if(m)
+                        for _j in range(3):
+                            before_ = len(log)
+                            sentinel_continuation(m, known, log, f'{n.name}.{m.name}')
+                            constant_flag_continuation(m, known, log, f'{n.name}.{m.name}')
+                            if len(log) == before_:
+                                break
                         chain_to_ifexp(m, known)
+                        unify_repeated_aliases(m, known, attr_rebound, props, log, f'{n.name}.{m.name}')
                         for _i in range(3):
                             before = len(log)
-                            do_fn(m, known, f'{n.name}.{m.name}')
+                            do_fn(m, known, f'{n.name}.{m.name}', mname in INTERPRETED_MODULES)
                             propagate_adjacent(m, known, log, f'{n.name}.{m.name}')
                             if len(log) == before:
                                 break
                         sink_returns(m, set(known))
 
 
+def unify_repeated_aliases(fn, known_locals, attr_rebound, props, log, where):
+    """a new local bound several times, always to the same chain of constructor-only fields (`job = self._job`, once per inlined
+    helper), denotes one object throughout: every load becomes the chain, the bindings go"""
+    new_locals = _locals_of(fn) - set(known_locals)
+    params = {a.arg for a in fn.args.posonlyargs + fn.args.args + fn.args.kwonlyargs}
+    defs = {}
+    bad = set()
+    for n in _walk_shallow(fn):
+        if isinstance(n, (ast.Assign, ast.AnnAssign)):
+            name, val = _single_name_assign(n)
+            if name is not None:
+                defs.setdefault(name, []).append((n, val))
+                continue
+        if isinstance(n, ast.Name) and isinstance(n.ctx, (ast.Store, ast.Del)):
+            pass
+    stores = {}
+    for n in _walk_shallow(fn):
+        if isinstance(n, ast.Name) and isinstance(n.ctx, (ast.Store, ast.Del)):
+            stores[n.id] = stores.get(n.id, 0) + 1
+    for name, dl in defs.items():
+        if name not in new_locals or name in params or len(dl) < 2 or stores.get(name) != len(dl):
+            continue
+        texts = {_txt(v) for (_n, v) in dl}
+        if len(texts) != 1:
+            continue
+        val = dl[0][1]
+        chain = val
+        okc = True
+        while isinstance(chain, ast.Attribute):
+            chain = chain.value
+        if not (isinstance(chain, ast.Name) and chain.id == 'self' and isinstance(val, ast.Attribute)):
+            continue
+        if not _stable_attr_paths(val, props, attr_rebound, set()):
+            continue
+        # the first binding must come before every use: it is the first statement mentioning the name at all
+        first = None
+
+        def preorder(node):
+            for ch in ast.iter_child_nodes(node):
+                if isinstance(ch, (ast.FunctionDef, ast.AsyncFunctionDef, ast.ClassDef, ast.Lambda)):
+                    continue
+                yield ch
+                yield from preorder(ch)
+        for n in preorder(fn):
+            if isinstance(n, ast.Name) and n.id == name:
+                first = n
+                break
+        if first is None or not isinstance(first.ctx, ast.Store):
+            continue
+        ids = {id(n) for (n, _v) in dl}
+
+        def strip(stmts):
+            out = []
+            for st in stmts:
+                if id(st) in ids:
+                    continue
+                for field in ('body', 'orelse', 'finalbody'):
+                    v = getattr(st, field, None)
+                    if isinstance(v, list) and v and not isinstance(st, (ast.FunctionDef, ast.AsyncFunctionDef, ast.ClassDef)):
+                        setattr(st, field, strip(v) or ([ast.copy_location(ast.Pass(), st)] if field == 'body' else []))
+                if isinstance(st, ast.Try):
+                    for h in st.handlers:
+                        h.body = strip(h.body) or [ast.copy_location(ast.Pass(), st)]
+                out.append(st)
+            return out
+        fn.body = strip(fn.body) or [ast.Pass()]
+        rep = _ReplaceLoads(lambda node, name=name, val=val: val if isinstance(node, ast.Name) and node.id == name else None)
+        for st in fn.body:
+            rep.visit(st)
+        log.append(f'N3 {where}: local {name} is {_txt(val)} at each of its {len(dl)} bindings; {rep.count} use(s) replaced')
+
+
+def _eval_order(e):
+    """sub-expressions of e in the order in which their evaluation completes (operands before the operation; only the parts that
+    are certainly evaluated: the first operand of and / or, the test of a conditional expression)"""
+    if e is None:
+        return
+    if isinstance(e, (ast.Name, ast.Constant)):
+        yield e
+    elif isinstance(e, ast.Attribute):
+        yield from _eval_order(e.value)
+        yield e
+    elif isinstance(e, ast.Subscript):
+        yield from _eval_order(e.value)
+        yield from _eval_order(e.slice)
+        yield e
+    elif isinstance(e, ast.Slice):
+        for x in (e.lower, e.upper, e.step):
+            yield from _eval_order(x)
+    elif isinstance(e, ast.BinOp):
+        yield from _eval_order(e.left)
+        yield from _eval_order(e.right)
+        yield e
+    elif isinstance(e, ast.UnaryOp):
+        yield from _eval_order(e.operand)
+        yield e
+    elif isinstance(e, ast.Compare):
+        yield from _eval_order(e.left)
+        yield from _eval_order(e.comparators[0])
+        yield e
+    elif isinstance(e, ast.BoolOp):
+        yield from _eval_order(e.values[0])
+        yield e
+    elif isinstance(e, ast.IfExp):
+        yield from _eval_order(e.test)
+        yield e
+    elif isinstance(e, ast.Call):
+        if isinstance(e.func, ast.Attribute):
+            yield from _eval_order(e.func.value)
+        elif not isinstance(e.func, ast.Name):
+            yield from _eval_order(e.func)
+        for a in e.args:
+            yield from _eval_order(a.value if isinstance(a, ast.Starred) else a)
+        for k in e.keywords:
+            yield from _eval_order(k.value)
+        yield e
+    elif isinstance(e, (ast.Tuple, ast.List)):
+        for x in e.elts:
+            yield from _eval_order(x)
+        yield e
+    else:
+        yield e
+
+
 def _first_leaf_is(e, name):
-    """the first thing the evaluation of e does is to load `name`"""
-    while e is not None:
-        if isinstance(e, ast.Name):
-            return e.id == name
-        if isinstance(e, (ast.Attribute, ast.Subscript, ast.Starred)):
-            e = e.value
-        elif isinstance(e, ast.BinOp):
-            e = e.left
-        elif isinstance(e, ast.Compare):
-            e = e.left
-        elif isinstance(e, ast.UnaryOp):
-            e = e.operand
-        elif isinstance(e, ast.BoolOp):
-            e = e.values[0]
-        elif isinstance(e, ast.IfExp):
-            e = e.test
-        elif isinstance(e, ast.Call):
-            if isinstance(e.func, ast.Attribute):
-                e = e.func.value
-            elif isinstance(e.func, ast.Name) and e.args and not isinstance(e.args[0], ast.Starred):
-                e = e.args[0]
-            else:
-                return False
-        else:
-            return False
+    """`name` is loaded before anything with a possible effect (a call, an arithmetic operation on non-literals) is evaluated"""
+    for x in _eval_order(e):
+        if isinstance(x, ast.Name):
+            if x.id == name:
+                return True
+            continue
+        if isinstance(x, (ast.Constant, ast.Attribute, ast.Subscript)) and _pure_read(x):
+            continue
+        if isinstance(x, ast.BinOp) and _pure_read(x, allow_attr=False):
+            continue                          # arithmetic on plain names / literals
+        return False
     return False
 
 
@@ -1488,6 +1846,160 @@ def _visit_own(st, transformer):
         transformer.visit(st)
 
 
+def constant_flag_continuation(fn, known_locals, log, where):
+    """`if c1: v = K1 elif c2: v = K2 else: v = K3` (v a new local, K literals) followed by the rest of the block: the rest is moved
+    into every branch with v replaced by its literal, and literal tests are folded.  Bounded: at most 4 branches, 10 statements."""
+    new_locals = _locals_of(fn) - set(known_locals)
+    if not new_locals:
+        return
+
+    def branches(st):
+        """[(If node or None for the final else, literal)] or None"""
+        out = []
+        cur = st
+        name = None
+        while True:
+            if not isinstance(cur, ast.If) or len(cur.body) != 1:
+                return None
+            n1, v1 = _single_name_assign(cur.body[0])
+            if n1 is None or n1 not in new_locals or _num_literal(v1) is None and not (isinstance(v1, ast.Constant)):
+                return None
+            if name is None:
+                name = n1
+            elif n1 != name:
+                return None
+            out.append((cur, v1))
+            if len(cur.orelse) == 1 and isinstance(cur.orelse[0], ast.If):
+                cur = cur.orelse[0]
+                continue
+            if len(cur.orelse) == 1:
+                n2, v2 = _single_name_assign(cur.orelse[0])
+                if n2 != name or (_num_literal(v2) is None and not isinstance(v2, ast.Constant)):
+                    return None
+                out.append((None, v2))
+                return name, out
+            return None
+
+    def block(stmts):
+        i = 0
+        while i < len(stmts):
+            st = stmts[i]
+            for field in ('body', 'orelse', 'finalbody'):
+                v = getattr(st, field, None)
+                if isinstance(v, list) and not isinstance(st, (ast.FunctionDef, ast.AsyncFunctionDef, ast.ClassDef)):
+                    block(v)
+            if isinstance(st, ast.Try):
+                for h in st.handlers:
+                    block(h.body)
+            r = branches(st) if isinstance(st, ast.If) else None
+            rest = stmts[i + 1:]
+            if r is not None and 1 <= len(rest) <= 10 and len(r[1]) <= 4:
+                name, brs = r
+                restores = any(isinstance(x, ast.Name) and x.id == name and isinstance(x.ctx, (ast.Store, ast.Del)) for s_ in rest for x in ast.walk(s_))
+                if not restores:
+                    last_if = None
+                    for (node, lit) in brs:
+                        if _num_literal(lit) is not None and not isinstance(lit, ast.Constant):
+                            v_ = _num_literal(lit)
+                            lit = ast.copy_location(ast.UnaryOp(op=ast.USub(), operand=ast.Constant(value=-v_)) if v_ < 0 else ast.Constant(value=v_), lit)
+                            ast.fix_missing_locations(lit)
+                        cont = copy.deepcopy(rest)
+                        rep_ = _ReplaceLoads(lambda nd, name=name, lit=lit: lit if isinstance(nd, ast.Name) and nd.id == name else None)
+                        cont = [rep_.visit(x) for x in cont]
+                        cont = _simplify_block(cont)
+                        if node is not None:
+                            node.body = cont or [ast.copy_location(ast.Pass(), node)]
+                            last_if = node
+                        else:
+                            last_if.orelse = cont
+                    del stmts[i + 1:]
+                    log.append(f'N4 {where}: literal flag {name} folded into the code that follows its {len(brs)} assignments')
+                    block(stmts[i:i + 1])
+                    return
+            i += 1
+    block(fn.body)
+    ast.fix_missing_locations(fn)
+
+
+def sentinel_continuation(fn, known_locals, log, where):
+    """An if-tree some of whose leaves end in `v = <literal>` (v a new local) while exactly one other leaf computes v, followed by
+    code that starts by testing v: the following code moves to the end of every leaf, with v replaced by the literal (and the
+    test folded) in the literal leaves.  Same statements on every path, in the same order."""
+    new_locals = _locals_of(fn)
+
+    def leaves(st, acc):
+        """collect (owner, field) pairs of the leaf blocks of an if / elif / else tree; False when a branch is missing"""
+        for field in ('body', 'orelse'):
+            blk = getattr(st, field)
+            if not blk:
+                return False
+            if isinstance(blk[-1], ast.If) and blk[-1].orelse:
+                if not leaves(blk[-1], acc):
+                    return False
+                acc.append((st, field, 'prefix'))           # statements before the nested if stay where they are
+            else:
+                acc.append((st, field, 'leaf'))
+        return True
+
+    def block(stmts):
+        i = 0
+        while i < len(stmts):
+            st = stmts[i]
+            for field in ('body', 'orelse', 'finalbody'):
+                v = getattr(st, field, None)
+                if isinstance(v, list) and not isinstance(st, (ast.FunctionDef, ast.AsyncFunctionDef, ast.ClassDef)):
+                    block(v)
+            if isinstance(st, ast.Try):
+                for h in st.handlers:
+                    block(h.body)
+            rest = stmts[i + 1:]
+            if isinstance(st, ast.If) and st.orelse and 1 <= len(rest) <= 12 and isinstance(rest[0], ast.If):
+                acc = []
+                if leaves(st, acc):
+                    lv = [(o, f) for (o, f, k) in acc if k == 'leaf']
+                    lit, other = [], []
+                    name = None
+                    okk = True
+                    for (o, f) in lv:
+                        blk = getattr(o, f)
+                        n1, v1 = _single_name_assign(blk[-1])
+                        if n1 is not None and n1 in new_locals and isinstance(v1, ast.Constant) and (name is None or n1 == name):
+                            name = n1
+                            lit.append((o, f, v1))
+                        elif _terminates(blk):
+                            continue
+                        else:
+                            other.append((o, f))
+                    tested = name is not None and any(isinstance(x, ast.Name) and x.id == name for x in ast.walk(rest[0].test))
+                    stored_later = name is not None and any(isinstance(x, ast.Name) and x.id == name and isinstance(x.ctx, (ast.Store, ast.Del))
+                                                            for s_ in rest for x in ast.walk(s_))
+                    if lit and len(other) == 1 and tested and not stored_later and len(lv) <= 4:
+                        # the computing leaf must bind the name itself (otherwise it carries a value from before the tree)
+                        ob = getattr(*other[0])
+                        if any(isinstance(x, ast.Name) and x.id == name and isinstance(x.ctx, ast.Store) for s_ in ob for x in ast.walk(s_)):
+                            conts = []
+                            for (o, f, v1) in lit:
+                                cont = copy.deepcopy(rest)
+                                rep_ = _ReplaceLoads(lambda nd, name=name, v1=v1: v1 if isinstance(nd, ast.Name) and nd.id == name else None)
+                                conts.append(_simplify_block([rep_.visit(x) for x in cont]))
+                            # only a sentinel: in every literal leaf the following code collapses to leaving the block at once
+                            if not all(len(c_) <= 2 and c_ and isinstance(c_[-1], (ast.Break, ast.Return, ast.Continue, ast.Raise)) for c_ in conts):
+                                i += 1
+                                continue
+                            for (o, f, v1), cont in zip(lit, conts):
+                                blk = getattr(o, f)
+                                setattr(o, f, blk + cont)            # the binding stays: the name may be read after the loop
+                            o, f = other[0]
+                            setattr(o, f, getattr(o, f) + rest)
+                            del stmts[i + 1:]
+                            log.append(f'N4 {where}: sentinel {name} = literal folded into the code that follows ({len(lit)} literal leaf/leaves, 1 computing leaf)')
+                            block(stmts[i:i + 1])
+                            return
+            i += 1
+    block(fn.body)
+    ast.fix_missing_locations(fn)
+
+
 def chain_to_ifexp(fn, known_locals):
     """`if c1: v = a elif c2: v = b else: v = c` (v a new local, every branch that single assignment) -> `v = a if c1 else (b if c2 else c)`"""
     new_locals = _locals_of(fn) - set(known_locals)
@@ -1544,6 +2056,17 @@ def chain_to_ifexp(fn, known_locals):
     ast.fix_missing_locations(fn)
 
 
+def _walk_loop_free(node):
+    """nodes of a statement that belong to the enclosing loop (does not enter nested loops / functions)"""
+    todo = [node]
+    while todo:
+        n = todo.pop()
+        yield n
+        for c in ast.iter_child_nodes(n):
+            if not isinstance(c, (ast.While, ast.For, ast.FunctionDef, ast.AsyncFunctionDef, ast.ClassDef, ast.Lambda)):
+                todo.append(c)
+
+
 def ifexp_to_if(fn):
     def block(stmts):
         out = []
@@ -1555,7 +2078,21 @@ def ifexp_to_if(fn):
             if isinstance(st, ast.Try):
                 for h in st.handlers:
                     h.body = block(h.body)
-            if isinstance(st, ast.Return) and isinstance(st.value, ast.IfExp):
+            if isinstance(st, ast.For) and isinstance(st.iter, ast.IfExp) and not st.orelse:
+                # for x in (A if c else B): body  ->  if c: for x in A: body  else: for x in B: body
+                e = st.iter
+                f1 = ast.copy_location(ast.For(target=st.target, iter=e.body, body=st.body, orelse=[], type_comment=None), st)
+                f2 = ast.copy_location(ast.For(target=copy.deepcopy(st.target), iter=e.orelse, body=copy.deepcopy(st.body), orelse=[], type_comment=None), st)
+                new = ast.copy_location(ast.If(test=e.test, body=[f1], orelse=[f2]), st)
+                out.extend(_simplify_block([new]))
+            elif isinstance(st, ast.While) and isinstance(st.test, ast.Constant) and st.test.value is True and not st.orelse and st.body \
+                    and isinstance(st.body[0], ast.If) and not st.body[0].orelse and len(st.body[0].body) == 1 and isinstance(st.body[0].body[0], ast.Break) \
+                    and not any(isinstance(x, ast.Continue) for b in st.body[1:] for x in _walk_loop_free(b)):
+                # while True: if c: break; rest   ->   while not c: rest
+                c = st.body[0].test
+                test = c.operand if isinstance(c, ast.UnaryOp) and isinstance(c.op, ast.Not) else ast.UnaryOp(op=ast.Not(), operand=c)
+                out.append(ast.copy_location(ast.While(test=test, body=st.body[1:] or [ast.copy_location(ast.Pass(), st)], orelse=[]), st))
+            elif isinstance(st, ast.Return) and isinstance(st.value, ast.IfExp):
                 e = st.value
                 new = ast.If(test=e.test, body=[ast.copy_location(ast.Return(value=e.body), st)], orelse=[ast.copy_location(ast.Return(value=e.orelse), st)])
                 out.extend(block([ast.copy_location(new, st)]))
@@ -1786,6 +2323,17 @@ def strip_noops(trees, base, log):
             if f in ('bool', 'int', 'float') and len(node.args) == 1 and not node.keywords and _known_type(node.args[0], self.env) == f:
                 counts['conv'] += 1
                 return node.args[0]
+            ops2 = {'operator.add': ast.Add, 'operator.sub': ast.Sub, 'operator.mul': ast.Mult, 'operator.truediv': ast.Div, 'operator.floordiv': ast.FloorDiv,
+                    'operator.mod': ast.Mod, 'operator.pow': ast.Pow}
+            cmp2 = {'operator.lt': ast.Lt, 'operator.le': ast.LtE, 'operator.gt': ast.Gt, 'operator.ge': ast.GtE, 'operator.eq': ast.Eq, 'operator.ne': ast.NotEq}
+            if f in ops2 and len(node.args) == 2 and not node.keywords:
+                counts['conv'] += 1
+                return ast.copy_location(ast.BinOp(left=node.args[0], op=ops2[f](), right=node.args[1]), node)
+            if f in cmp2 and len(node.args) == 2 and not node.keywords:
+                counts['conv'] += 1
+                return ast.copy_location(ast.Compare(left=node.args[0], ops=[cmp2[f]()], comparators=[node.args[1]]), node)
+            if f == 'operator.neg' and len(node.args) == 1:
+                return ast.copy_location(ast.UnaryOp(op=ast.USub(), operand=node.args[0]), node)
             return node
 
         def visit_Compare(self, node):
@@ -1853,9 +2401,23 @@ def run(trees, baseline=None):
     OBSERVERS.update(observer_methods(trees))
     strip_noops(trees, base, log)
     fold_constants(trees, base, log)
+    NON_NONE_CLASS_CONSTANTS.clear()
+    for t in trees.values():
+        for c in t.body:
+            if isinstance(c, ast.ClassDef):
+                seen = {}
+                for st in c.body:
+                    if isinstance(st, ast.Assign) and len(st.targets) == 1 and isinstance(st.targets[0], ast.Name):
+                        seen.setdefault(st.targets[0].id, []).append(st.value)
+                for k, vs in seen.items():
+                    if len(vs) == 1 and isinstance(vs[0], ast.Constant) and vs[0].value is not None:
+                        NON_NONE_CLASS_CONSTANTS.add(f'{c.name}.{k}')
+    inline_generators(trees, base, log)
+    unfold_walrus(trees, log)
     inline_helpers(trees, base, log)
     propagate_locals(trees, base, log)
     strip_noops(trees, base, log)                 # conversions exposed by the propagation
+    undo_renames(trees, base, log)                # renames whose usage profile only matches once the new helpers are gone
     for t in trees.values():
         ast.fix_missing_locations(t)
     return log
